@@ -383,6 +383,20 @@ pub async fn run(ctx: &Ctx) {
                 }
             }
             EV_PARTITION => {
+                // knob outage_ms: the path first fails for a while and comes back (ICE goes Disconnected and recovers
+                // within the grace period) before it is lost for good
+                let outage = plan.knob("outage_ms", 0).max(0) as u64;
+                if outage > 0 {
+                    ctx.net.set_blackhole(true);
+                    tokio::time::sleep(Duration::from_millis(outage)).await;
+                    ctx.net.set_blackhole(false);
+                    ctx.ev("network back after a temporary outage", &format!("{outage} ms"));
+                    tokio::time::sleep(Duration::from_millis(plan.knob("outage_heal_ms", 3000).max(0) as u64)).await;
+                    ctx.stat("probe.outage_then_partition", 1);
+                    for s in 0..2 {
+                        ctx.stat(&format!("probe.state_after_outage.{}", state_name(*state_rx[s].borrow())), 1);
+                    }
+                }
                 ctx.net.set_blackhole(true);
                 lower_loss[0] = true;
                 lower_loss[1] = true;
@@ -646,6 +660,13 @@ pub fn generate(prop: &str, seed: u64, idx: u64, tier: Tier) -> Plan {
         }
     }
     p.knobs.insert("ice_connection_timeout_ms".into(), 15_000);
+    if idx >= core && kind == EV_PARTITION && mode == 0 && (7..=8).contains(&phase) && r.chance(60) {
+        // recovered outage first; ICE's own connection timeout is put out of reach so that only the
+        // disconnect-grace logic can end the connection
+        p.knobs.insert("outage_ms".into(), *r.pick(&[4500i64, 5000, 6000]));
+        p.knobs.insert("outage_heal_ms".into(), *r.pick(&[1500i64, 3000, 5000]));
+        p.knobs.insert("ice_connection_timeout_ms".into(), 600_000);
+    }
     p.knobs.insert("ice_disconnect_threshold_ms".into(), 4_000);
     p.knobs.insert("ice_disconnect_grace_ms".into(), 3_000);
     p.knobs.insert("bound_ms".into(), 90_000);
